@@ -1165,8 +1165,32 @@ func ruleAdmissionRejectsOnlyForgeries(c *Check, p *Prog, rule string) {
 	root := p.MustFunc(mgrM("RetrieveLoop"))
 	rg := BuildECFG(p, root, ExpandOpts{MaxDepth: 5})
 	preds := map[*ssa.Function]bool{}
+	var hs []*ssa.Function
+	seenH := map[*ssa.Function]bool{}
 	for _, sn := range rg.Select(func(x *Node) bool { si := classifySink(x); return si != nil && si.what == "send" }) {
-		h := sn.Ctx.Fn
+		// the handler and the helpers of the package it delegates decoding / admission to
+		var add func(fn *ssa.Function, d int)
+		add = func(fn *ssa.Function, d int) {
+			if seenH[fn] || fn.Blocks == nil {
+				return
+			}
+			seenH[fn] = true
+			hs = append(hs, fn)
+			if d >= 2 {
+				return
+			}
+			for _, cal := range staticCalleesOf(p, fn) {
+				if pk := fnPkg(cal); pk != nil && pk.Pkg.Path() == rootPath+"/block" {
+					if res := cal.Signature.Results(); res.Len() == 1 && isBoolType(res.At(0).Type()) {
+						continue // a predicate: examined, not descended into
+					}
+					add(cal, d+1)
+				}
+			}
+		}
+		add(sn.Ctx.Fn, 0)
+	}
+	for _, h := range hs {
 		for _, b := range h.Blocks {
 			for _, in := range b.Instrs {
 				call, ok := in.(*ssa.Call)
